@@ -12,6 +12,7 @@ Ltac dmatch H :=
       let E := fresh "E" in destruct x eqn:E; try discriminate H
   end.
 Ltac rinv H := repeat (unfold rbind in H; dmatch H).
+Ltac splits := repeat match goal with |- _ /\ _ => split end.
 
 Lemma rbind_ok {A B} (r : R A) (f : A -> R B) x :
   rbind r f = Ok x -> exists a, r = Ok a /\ f a = Ok x.
@@ -87,12 +88,12 @@ Lemma change_balance_spec b id d b' :
   (pos_bal b -> pos_bal b').
 Proof.
   unfold change_balance, getb. destruct (d =? 0) eqn:Ed.
-  - apply Z.eqb_eq in Ed. subst d. intros [= <-]. repeat split; try lia.
+  - apply Z.eqb_eq in Ed. subst d. intros [= <-]. splits; try lia.
     + intros j. destruct (decide (j = id)) as [->|]; lia.
     + auto.
     + intros Hp. specialize (Hp id). destruct (b !! id) as [v|]; cbn; [specialize (Hp v eq_refl)|]; lia.
   - destruct (default 0 (b !! id) + d <? 0) eqn:En; [discriminate|].
-    apply Z.ltb_ge in En. intros [= <-]. repeat split.
+    apply Z.ltb_ge in En. intros [= <-]. splits.
     + exact En.
     + rewrite set_or_delete_sum. unfold getb. lia.
     + intros j. rewrite set_or_delete_lookup. reflexivity.
@@ -111,13 +112,13 @@ Proof.
   intros Ha. unfold make_transfer. destruct (from =? to) eqn:Eft.
   - apply Z.eqb_eq in Eft. subst to. fold (getb b from).
     destruct (getb b from <? amount) eqn:El; [discriminate|]. apply Z.ltb_ge in El.
-    intros [= <-]. repeat split; auto; try lia. intros; congruence.
+    intros [= <-]. splits; auto; try lia. intros; congruence.
   - apply Z.eqb_neq in Eft.
     destruct (change_balance b from (- amount)) as [b1|] eqn:E1; [|discriminate].
     intros E2.
     apply change_balance_spec in E1 as (H1a & H1b & H1c & H1d).
     apply change_balance_spec in E2 as (H2a & H2b & H2c & H2d).
-    repeat split.
+    splits.
     + lia.
     + lia.
     + intros _ j. rewrite H2c.
@@ -150,7 +151,7 @@ Record tk_effect (t t' : token) (dsupply : Z) : Prop := {
 
 Lemma tk_effect_inv t t' d : tk_effect t t' d -> tok_inv t -> tok_inv t'.
 Proof.
-  intros [Hs Hm Hb Hp] (I1 & I2 & I3). repeat split; [lia|lia|auto].
+  intros [Hs Hm Hb Hp] (I1 & I2 & I3). splits; [lia|lia|auto].
 Qed.
 
 Lemma tk_mint_spec t to a ops t' :
@@ -162,7 +163,7 @@ Proof.
   unfold tk_mint. intros H. rinv H.
   apply negb_false_iff in E. apply valid_amount_spec in E as [Ha _].
   apply change_balance_spec in E0 as (H1 & H2 & H3 & H4).
-  injection H as <-. cbn. repeat split; cbn; try lia; auto.
+  injection H as <-. cbn. splits; cbn; try lia; auto.
 Qed.
 
 Lemma tk_burn_spec t o a t' :
@@ -175,7 +176,7 @@ Proof.
   apply negb_false_iff in E. apply valid_amount_spec in E as [Ha _].
   apply change_balance_spec in E0 as (H1 & H2 & H3 & H4).
   injection H as <-. cbn. unfold balance_of. fold (getb (bal t) o) in *.
-  repeat split; cbn; try lia; auto.
+  splits; cbn; try lia; auto.
   intros j. specialize (H3 j). unfold getb in *. destruct (decide (j = o)); lia.
 Qed.
 
@@ -191,7 +192,7 @@ Proof.
   unfold tk_transfer. intros H. rinv H.
   apply negb_false_iff in E. pose proof (valid_amount_spec _ E) as [Ha _].
   apply (make_transfer_spec _ _ _ _ _ Ha) in E0 as (H1 & H2 & H3 & H4 & H5).
-  injection H as <-. cbn. repeat split; cbn; try lia; auto.
+  injection H as <-. cbn. splits; cbn; try lia; auto.
 Qed.
 
 Lemma use_allowance_spec al operator owner a al' :
@@ -203,7 +204,7 @@ Proof.
   unfold use_allowance. set (cur := default 0 (al !! (owner, operator))).
   destruct (((cur =? 0) && negb (operator =? owner)) || (cur <? a)) eqn:E; [discriminate|].
   apply orb_false_iff in E as [E1 E2]. apply Z.ltb_ge in E2.
-  intros [= <-]. repeat split.
+  intros [= <-]. splits.
   - lia.
   - intros Hne Hz. apply andb_false_iff in E1 as [E1|E1].
     + apply Z.eqb_neq in E1. contradiction.
@@ -220,7 +221,7 @@ Lemma tk_transfer_from_spec t op from to a t' :
   tk_transfer t from to a = Ok (tk_set_allow t' (allow t)) /\ allow t' = al'.
 Proof.
   unfold tk_transfer_from, tk_transfer. intros H. rinv H.
-  apply Z.eqb_neq in E0. injection H as <-. eexists; repeat split; eauto.
+  apply Z.eqb_neq in E0. injection H as <-. eexists; splits; eauto.
 Qed.
 
 Lemma tk_burn_from_spec t op owner a t' :
@@ -229,7 +230,7 @@ Lemma tk_burn_from_spec t op owner a t' :
   tk_burn t owner a = Ok (tk_set_allow t' (allow t)) /\ allow t' = al'.
 Proof.
   unfold tk_burn_from, tk_burn. intros H. rinv H.
-  apply Z.eqb_neq in E0. injection H as <-. eexists; repeat split; eauto.
+  apply Z.eqb_neq in E0. injection H as <-. eexists; splits; eauto.
 Qed.
 
 Lemma tk_effect_set_allow t t' d al :
